@@ -261,7 +261,10 @@ def check_point(ctx, limit, mode, k, pre):
         if not isinstance(res, list):
             probs.append('result is not a list: %r' % (res,))
             res = []
-        if raised:
+        # a projection that raises RuntimeError/StopIteration is indistinguishable from a depth abort / an exhausted
+        # iterator for evaluate_bounded; the property does not say such an exception propagates (only that the limit is
+        # restored and the variables are unbound), so returning a prefix is accepted for these two modes
+        if raised and mode == 'raise':
             probs.append('the projection function raised %s at answer %d but evaluate_bounded returned normally (%d results): '
                          'the exception did not propagate' % ({'raise': 'ProjError', 'runtime': 'RuntimeError', 'stop': 'StopIteration'}[mode], k, len(res)))
         m = min(len(res), len(exp))
@@ -395,6 +398,7 @@ def run_f1_case(case, seed, count, acc, order, only=None):
             sc = dict(driver='s_c17', family='F1', seed=seed, count=count, case_id=case.id, qi=qi, point=pi,
                       limit=limit, mode=mode, k=k, pre=pre, source=src, query=qs)
             acc.evaluation(digest(src, qs, limit, mode, k) if nt else None)
+            acc.observe((qi, pi), ok, detail)
             if info.get('borderline'):
                 acc.skip('borderline (not a failure)')
             if not ok:
@@ -423,7 +427,7 @@ def worker(args):
     for i in range(count - nf1):
         order += 1
         sc = deep_scenario(seed, i)
-        if (hash_key(sc['program'], sc['N'])) % parts == part:
+        if (hash_key(sc['program'], sc['N']) if sc['N'] else i) % parts == part:
             mine.append((order, i, sc))
     mine.sort(key=lambda t: (t[2]['program'], t[2]['N'], t[0]))
     for order, i, sc in mine:
@@ -464,6 +468,11 @@ def replay(sc):
     case = S.find_case('F1', sc['seed'], sc['count'], sc['case_id'])
     if case is None:
         return False, 'case not found'
+    acc = Acc()         # the checks of a case share one engine: run the whole case, pick the check's outcome
+    acc.watch_key = (sc['qi'], sc['point'])
+    run_f1_case(case, sc['seed'], sc['count'], acc, 0)
+    if acc.watch_result is not None:
+        return acc.watch_result
     return run_f1_case(case, sc['seed'], sc['count'], Acc(), 0, only=(sc['qi'], sc['point']))
 
 
